@@ -29,10 +29,26 @@ def scenarios():
     add('script-not-executable', 'test.sh', 'InvalidInterestingnessTestError', script_mode='644')
     add('insane-input', 'a.c', 'InsaneTestCaseError', predicate='exit 1')
     add('insane-input-signal', 'a.c', 'InsaneTestCaseError', predicate='kill -9 $$')
+    add('insane-input-save-temps', 'a.c', 'InsaneTestCaseError', predicate='exit 1', cfg={'save_temps': True})
+    add('insane-input-script-without-shebang', 'a.c', 'InsaneTestCaseError', predicate='exit 1', script_shebang='')
+    add('insane-input-script-interpreter-missing', 'test.sh', 'InsaneTestCaseError', predicate='exit 1', script_shebang='#!/nonexistent/interpreter')
     # an unknown argument must be refused whatever the input looks like (also inputs on which the pass has nothing to do)
     texts = {'': 'keep1 (a ? b : c) 0x10;\nint x = {1};\n', ':plain-words': 'keep1\nplain words only\n', ':one-word': 'keep1\n',
              ':digits-only': 'keep1 1 2 3\n', ':blank-lines': 'keep1\n\n   \n'}
+    import gen_model
+    from vlib import REPO
+    valid = gen_model.py_arg_sets(REPO)
     for p in ['balanced', 'ints', 'special', 'peep', 'ternary', 'indent']:
+        # other shapes of "unknown": empty, missing, and strings built from valid arguments (substring / prefix tests)
+        vs = [a for a in valid.get(p, []) if isinstance(a, str)]
+        odd = {':empty': '', ':missing': None, ':valid-args-joined': ''.join(vs[:2]), ':valid-arg-prefix': (vs[0][:-1] if vs and len(vs[0]) > 1 else 'zz'),
+               ':valid-arg-upper': (vs[0].upper() if vs else 'ZZ')}
+        for tag, a in odd.items():
+            if a in vs:
+                continue
+            add(f'unknown-argument:{p}{tag}', str(a), 'UnknownArgumentError', startup=False,
+                tree={'a.c': {'text': texts['']}, 'other.txt': {'text': 'o'}},
+                groups={'first': [], 'main': [{'name': p, 'arg': a}], 'last': []}, external={'clang-format': '/bin/true'})
         for tag, text in texts.items():
             add(f'unknown-argument:{p}{tag}', 'bogus-arg', 'UnknownArgumentError', startup=False,
                 tree={'a.c': {'text': text}, 'other.txt': {'text': 'o'}},
@@ -56,7 +72,7 @@ def judge(scen, obs):
     if scen.get('startup') and 'before' in obs:
         if obs['before'] != obs['after']:
             return 'working-directory-changed-by-refused-run'
-        if obs.get('tmp_left'):
+        if obs.get('tmp_left') and not scen.get('cfg', {}).get('save_temps'):      # --save-temps keeps the sanity directory on purpose
             return 'temp-dir-left-by-refused-run'
     return None
 
